@@ -307,6 +307,12 @@ func c05Scenario(res *vResult, rng *rand.Rand, up4 bool, ending, prefix string, 
 			upPDR.UEFlag, upPDR.UEIP = 0x02, vIPStr(ues[0])
 		}
 		mod := vModSpec{Seq: seq, SEID: ups[0], UpPDR: []vPDRSpec{upPDR}}
+		if prefix == "update-pdr-refresh" && len(ues) > 0 {
+			// the downlink PDR too: it echoes the address the UPF assigned (by value, no CHOOSE flag)
+			dnPDR := e.PDRs[1]
+			dnPDR.UEFlag, dnPDR.UEIP = 0x02, vIPStr(ues[0])
+			mod.UpPDR = append(mod.UpPDR, dnPDR)
+		}
 		switch prefix {
 		case "update-pdr-new-teid":
 			upPDR.TEID = 0x7E000000 + uint32(idx%1000)
